@@ -3,6 +3,12 @@
 import json
 claimed = {
  "C05": ("exploration", "6 C05", "Seeded search over message sequences, end conditions and fragmentations of real ReadMessage / conn.serve against a reference framer, plus an enumerated sweep of every split point, truncation offset and declared length 0..19 on short streams; sampling, not proof."),
+ "C06": ("exploration", "6 C06", "Seeded histories of later reads (same/other connection, other goroutine, both sides of the 1 KiB pooled buffer), writes and forced GCs after a handler retained a message; every retained message is re-fingerprinted after every step. Sampling of histories with deterministic pool reuse."),
+ "C07": ("exploration", "6 C07", "Seeded interleavings of 1-6 writer tasks on one real connection with mid-write stalls and write errors decided by the engine, checked against the recorded byte stream (whole, exactly once, per-writer and real-time order); retry half against scripted (accepted, error) outcome sequences and a small reference model, also through a real Conn."),
+ "C08": ("exploration", "6 C08", "Seeded schedules of connects, fragment deliveries, handler releases and yield-point releases over Server.Serve with parked handlers; ENTER/EXIT history oracle per connection and a progress invariant at every quiescent point."),
+ "C09": ("exploration", "6 C09", "Seeded registration tables, re-registrations and message mixes on live concurrently served connections, compared with a reference decision table; the decision is input/config-quantified, the simulation supplies the live observation."),
+ "C15": ("exploration", "6 C15", "Seeded placement of handler panics, seven kinds of malformed input, resets and temporary accept errors among 3-4 concurrent connections plus runtime registrations and a late connection; isolation, close, error-report and liveness oracles."),
+ "C16": ("exploration", "6 C16", "Seeded request headers (boundary identifiers incl. 0, all flag bytes, result codes) answered through Message.Answer on live connections; answers parsed by the reference codec and compared field by field."),
 }
 technique = "deterministic simulation with fault injection (seeded schedule/fault search over real code behind in-memory transports and a fake clock; history oracles against small reference models)"
 na = {
